@@ -341,7 +341,7 @@ def cause_of(fault):
     st, rz, c = fault
     if rz in ('infeas', 'wrappedInfeas'):
         return 'infeasible'
-    if rz == 'withCode' and c is not None and c >= 0:
+    if rz == 'withCode' and c is not None and c >= 100:      # BackendApp::Run keeps only codes >= sol::UNCERTAIN
         return 'raised:%d' % c
     if rz == 'solCheck':
         return 'raised:150'
@@ -795,11 +795,11 @@ def corpus_cases(cg):
         return c
     mk('plain')
     mk('counterexample_optdims', options=[('foo=1', 'b')])
-    c = mk('counterexample_code1_body'); cg.broken_body(c)
-    c = mk('counterexample_code1_names'); c['col'] = 'x\ny'; c['names_bad'] = 'col'
+    c = mk('fixed_code1_body'); cg.broken_body(c)
+    c = mk('fixed_code1_names'); c['col'] = 'x\ny'; c['names_bad'] = 'col'
     m = lp(); m.con(0, None, {}, ('rem', ('v', 0), ('n', 3)))
-    c = cg.base('corpus:counterexample_code1_unsupported', m); c['natural'] = ('convert', 'unsupported', None); c['all_opts'] = []; out.append(c)
-    mk('counterexample_writeerr', outpath='devfull')
+    c = cg.base('corpus:fixed_code1_unsupported', m); c['natural'] = ('convert', 'unsupported', None); c['all_opts'] = []; out.append(c)
+    mk('fixed_writeerr', outpath='devfull')
     mk('counterexample_standalone', ampl=False, options=[('foo=1', 'b')])
     mk('counterexample_standalone_silent', ampl=False, options=[('wantsol=8', ('w', 8)), ('foo=1', 'b')])
     mk('counterexample_ctorcode', env={'RECSOLVER_FAULT': 'ctor:withCode:512'}, inject=('ctor', 'withCode', 512), synthetic=True)
@@ -809,7 +809,7 @@ def corpus_cases(cg):
     c = cg.base('corpus:bigm', g.model_bigm()); c['natural'] = None; c['all_opts'] = []; out.append(c)
     # binary fixed to 1 and `not (b = 1)`: MP_INFEAS inside PropagateResult, re-raised by ConstraintKeeper with MP_RAISE
     m = lp(); b = m.var(1, 1, True); m.lcon(('not', ('eq', ('v', b), ('n', 1))))
-    c = cg.base('corpus:counterexample_infeas500', m); c['natural'] = ('convert', 'wrappedInfeas', None); c['all_opts'] = []; out.append(c)
+    c = cg.base('corpus:fixed_infeas500', m); c['natural'] = ('convert', 'wrappedInfeas', None); c['all_opts'] = []; out.append(c)
     # inconsistent header: one more nonlinear variable declared than there are variables
     c = mk('counterexample_hdrdims')
     L = c['nl'].split('\n'); L[4] = ' 3 3 3'; c['nl'] = '\n'.join(L); c['natural'] = None
@@ -910,7 +910,7 @@ def run(ck):
     ck.notes.append('PARTIAL: proof about the hand model of the outcome decision logic + sampled correspondence with the real driver; '
                     'termination / crash freedom of the C++ is observed only (ASan+UBSan, timeout) on the generated inputs')
     proof_ok, failing = ck.proof_stage('MpVerif.C09.Props', 'MpVerif/C09/Props.lean', 'C09_',
-                                        ['MpVerif/C09/*.lean'], expect_min=29)
+                                        ['MpVerif/C09/*.lean'], expect_min=30)
     ck.log('proof stage: ok=%s failing=%s' % (proof_ok, failing[:8]))
     if ck.tier == 'thorough' and proof_ok:
         bad = ck.leanchecker(['MpVerif.C09.Props'])
